@@ -327,6 +327,41 @@ Proof.
 Qed.
 
 (* ------------------------------------------------------------------ *)
+(* C16-9: striped "deletion counters" (one per hash(key) % 256; every Del - also the wheel's
+   expiry callback - bumps its key's stripe; Take does not store the loaded value when the counter
+   of its key's stripe moved while the loader ran).  Sequentially identical to the code; with the
+   loader of key 1 held while ANOTHER key of the same stripe (257) is deleted, the loaded value is
+   dropped: Get misses and the next Take loads again, although nobody deleted, expired or evicted
+   key 1.  The code (ModelGate.c_take_held) and the reference keep it; a Del in another stripe
+   (key 2) does no harm - which is why only keys sharing the stripe expose it. *)
+From GZ Require Import C16.ModelGate.
+
+Theorem cache_striped_deletion_counters_refuted :
+  let stripe := fun k => k mod 256 in
+  let c0 := c_new 0 in
+  exists inner, Forall (fun o => cop_key o <> 1) inner /\
+    let '(cs, rs, _) := c_take_held_striped stripe c0 1 (Some 10) inner in
+    let '(ch, rh, _) := c_take_held c0 1 (Some 10) inner in
+    rs = OTake (Some 10) true /\ rh = OTake (Some 10) true /\
+    c_run cs [CGet 1; CTake 1 (Some 99)] = [OOpt None; OTake (Some 99) true] /\
+    c_run ch [CGet 1; CTake 1 (Some 99)] = [OOpt (Some 10); OTake (Some 10) false] /\
+    s_run (s_new 0) (inner ++ [CTake 1 (Some 10); CGet 1; CTake 1 (Some 99)]) =
+      [OUnit; OTake (Some 10) true; OOpt (Some 10); OTake (Some 10) false] /\
+    (* another stripe: harmless *)
+    fst (fst (c_take_held_striped stripe c0 1 (Some 10) [CDel 2])) = fst (fst (c_take_held c0 1 (Some 10) [CDel 2])).
+Proof.
+  exists [CDel 257]. split; [repeat constructor; discriminate|]. vm_compute. repeat split.
+Qed.
+
+(* the same through an EXPIRY of the other key (the wheel's callback is Del) *)
+Theorem cache_striped_deletion_counters_expiry_refuted :
+  let stripe := fun k => k mod 256 in
+  let c0 := c_final (c_new 0) [CSet 257 7] in
+  c_run (fst (fst (c_take_held_striped stripe c0 1 (Some 10) [CExpire 257]))) [CGet 1] = [OOpt None] /\
+  c_run (fst (fst (c_take_held c0 1 (Some 10) [CExpire 257]))) [CGet 1] = [OOpt (Some 10)].
+Proof. vm_compute. split; reflexivity. Qed.
+
+(* ------------------------------------------------------------------ *)
 (* Finding (unchanged tree): the wheel starts the expiry callbacks of a tick on a goroutine
    of their own, after it has removed the fired timers.  A SetWithExpire of a fired key that
    gets in before its callback runs stores the new value and a NEW timer; the stale callback
